@@ -163,7 +163,13 @@ type TreeCfg struct {
 	// kilobytes (files larger than one read buffer), a long list, a map with
 	// dozens of keys, a deep chain — size thresholds are a classic blind spot.
 	BigP float64
+	// OddKeyP is the chance that a map key is an unusual but legal one
+	// (empty, with dots / spaces / unicode, token look-alikes, very long).
+	OddKeyP float64
 }
+
+var OddKeys = []string{"", "a.b", "has space", "é", "0", "true", "null", "a:b", "- x", "k#", "$$", "日本", "a.b.c.d", "x\ty",
+	"long-" + string(make([]byte, 0)) + "kkkkkkkkkkkkkkkkkkkkkkkkkkkkkkkkkkkkkkkkkkkkkkkkkkkkkkkkkkkkkkkkkkkkkkkkkkkkkkkkkkkkkkkkkkkkkkkkkkkkkkkkkkkkkkkkkkkkkkkkkkkkkkkkkkkkkkkkkkkkkkkkkkkkkkkkkkkkkkkkkkkkkkkkkkkkkkkkkkkkkkkkkkkkkkkkkkkkkkkkkkkkkkkkkkkkkkkkkkkkkkkkkkkkkkkkkkkkkkkkkkkkkkkkkkkkkkkkkkkkkkkk"}
 
 // Bulk adds large members to a root map.
 func (c TreeCfg) Bulk(r *Rand, m map[string]any) {
@@ -261,6 +267,9 @@ func (c TreeCfg) Map(r *Rand, depth int) map[string]any {
 	m := map[string]any{}
 	for i := 0; i < n; i++ {
 		k := PickAny(r, keys)
+		if c.OddKeyP > 0 && r.Chance(c.OddKeyP) {
+			k = PickAny(r, OddKeys)
+		}
 		m[k] = c.Tree(r, depth-1)
 	}
 	if depth == c.MaxDepth && c.BigP > 0 && r.Chance(c.BigP) {
